@@ -41,6 +41,8 @@ CHECKS = {
    text="The real WorkloadLoader / WorkerLoader constructors run on description trees whose integers are solver variables (only file opening and json/yaml parsing are stubbed); every job, edge, per-node field, strategy, resource key and release-policy parameter is compared by z3 with the description; "
         "the real release-time generation (all five policies), task-graph instantiation, closed-loop re-release and deadline fuzzing run symbolically and are compared with their definitions (deadline enclosure with +-1 rounding slack).",
    technique="symbolic execution of the real loaders and release policies (own z3-backed path explorer) over symbolic description integers"),
+ "C09": sim("Non-interference by self-composition: on every feasible path the same world (same symbolic inputs, same seed, seeds {0,1,42} in the thorough tier) is simulated twice under two environments - wall-clock readings, draws of generators built without a seed or seeded from a string hash / pre-seed global state, and the iteration order of string sets all differ - "
+            "and z3 proves the two CSV traces equal cell by cell (measured scheduler duration masked). Worlds: conditionals, branch prediction draws, deadline and runtime variance, two-resource pools, Poisson arrivals.", "3/C09"),
  "C10": dict(level="model_checking", design="3/C10", engine="pysym+mip2smt", note=PYSYM_NOTE + " Planner part: gurobipy.Model subclass / docplex / z3.Optimize capture inside the real schedule(); translation of linear, bilinear, indicator and AND constraints to z3 (anything else aborts); read-back relation validated on every instance against the real get_placements().",
    text="Greedy policies: every feasible path of the real EDF/FIFO/LSF schedule() on API-built mixed states (released + running + scheduled-for-later tasks, heterogeneous pools, symbolic numerics): one decision per offered task, existing pool, own strategy, time >= now/release, first-fit replay within capacity, live state untouched. "
         "Planners (ILP, TetriSched-Gurobi/CPLEX, Z3): schedule() must return; over ALL solutions of the captured model z3 proves start >= now/release and no worker over capacity at any start instant; returned plan re-checked concretely.",
